@@ -1,3 +1,24 @@
-import GenlmModel.Model.Basic
+import Batteries.Tactic.Alias
+import GenlmModel.Proofs.Struct
+/-! # C07 — normal forms satisfy their structural postconditions
+About the mirror models of `Model/Transform.lean` (compared with the real code stage by stage on
+every run), for EVERY input grammar. -/
 namespace Genlm.Props.C07
+alias binarize_arity := Genlm.binarize_arity
+alias binarize_complete := Genlm.binarize_complete
+alias binarize_keeps_short := Genlm.binarize_keeps_short
+alias separate_start_off_rhs := Genlm.separateStart_off_rhs
+alias separate_terminals_shape := Genlm.separateTerminals_shape
+alias push_null_no_nullary_except_start := Genlm.pushNull_no_nullary
+alias unaryremove_no_unary := Genlm.unaryRemove_no_unary
+/-- every symbol of every kept rule is reachable and generating (grammars never store zero-weight rules) -/
+alias trim_useful := Genlm.trim_useful
+alias trim_symbols := Genlm.trim_symbols
+alias generating_spec := Genlm.generating_spec
+/-- a grammar with empty language trims to the empty rule set -/
+alias trim_empty := Genlm.trim_empty
+alias trim_nonempty := Genlm.trim_nonempty
+alias trim_idempotent := Genlm.trim_idem
+/-- the whole `cnf` pipeline lands in Chomsky normal form, start symbol off every right-hand side -/
+alias cnf_shape := Genlm.cnf_shape
 end Genlm.Props.C07
